@@ -3,6 +3,7 @@
 import contextlib
 import copy
 import glob
+import hashlib
 import itertools
 import json
 import os
@@ -13,7 +14,7 @@ import fw
 
 ID = 'C10'
 LEVEL = 'proof'
-LEAN_TARGETS = ['BareProofs.C10', 'BareProofs.C06Caret']
+LEAN_TARGETS = ['BareProofs.C10Pins', 'BareProofs.C10', 'BareProofs.C06Caret']
 DRIVER = 'drv_c10'
 DRIVER_ROOT = 'Drv.C10'
 GEN = ['Regex']
@@ -22,7 +23,7 @@ THEOREMS = [
     'C10.splitLines_no_newline', 'C10.split_join', 'C10.crlf_eq_lf', 'C10.crlf_eq_lf_text',
     'C10.split_chunks_exact', 'C10.chunking_irrelevant', 'C10.chunking_keepends_irrelevant',
     'C10.mirror_eq_spec_lines', 'C10.mirror_eq_spec_lines_string', 'C10.comment_blank_insertion', 'C10.comment_insertion_shift',
-    'C10.continuation_join', 'C10.logical_lines_compositional',
+    'C10.continuation_join', 'C10.logical_lines_compositional', 'C10.scriptLines_eq', 'C10.scriptLines_chunks',
     'C10.leading_ws_irrelevant_shape', 'C10.leading_ws_irrelevant_stmt', 'C10.leading_ws_irrelevant', 'C10.trailing_ws_irrelevant_partial', 'C10.keyword_line_layout',
     'C06.caret_under_same_char', 'C06.caret_row', 'C06.caret_in_range',
 ]
@@ -531,7 +532,11 @@ def same_program(base, other):
 
 
 def brief(res):
-    return jsonable(res if res[0] != 'ok' else ('ok', res[1]))
+    out = jsonable(res)
+    text = json.dumps(out, ensure_ascii=True)
+    if len(text) > 1500:
+        return {'kind': res[0], 'sha256': hashlib.sha256(text.encode()).hexdigest()[:16], 'head': text[:600]}
+    return out
 
 
 # ---------------------------------------------------------------------------------------------------------------------
@@ -688,6 +693,29 @@ SOUP = ['v = 1', 'w = f(x)', "s = 'a # b'", 'f(x)', 'lbl:', 'jump lbl', 'jumpif 
         'm = 1 \\\r', 'a\xe9 = 1', 'x\u3000=\u30002', 'e = (1', 'g = 1)']
 
 
+_REF_SPLIT = re.compile(r'\r?\n')
+
+
+def first_physical_line_check(chunks, out):
+    """Reference computation from the statement 'the reported line number is that of the first physical line of the
+    logical line': the reported logical line text starts with that physical line (continuation removed, right-stripped)."""
+    if out[0] != 'err' or out[4] is None:
+        return None
+    phys = [ln for ch in chunks for ln in _REF_SPLIT.split(ch)]
+    ix = out[4] - 1
+    if not 0 <= ix < len(phys):
+        return f'line number {out[4]} outside the text ({len(phys)} physical lines)'
+    first = phys[ix]
+    body = first.rstrip()
+    if body.endswith('\\'):
+        first = body[:-1].rstrip()
+        if not out[2].startswith(first):
+            return f'line {out[4]} is {phys[ix]!r} but the reported logical line is {out[2]!r}'
+    elif out[2] != first:
+        return f'line {out[4]} is {phys[ix]!r} but the reported line is {out[2]!r}'
+    return None
+
+
 def stream_lines(ctx):
     """Model logicalLines vs the implementation, observed through behaviour: random physical-line soup of context-free statements."""
     rng = ctx.rng('lines')
@@ -746,6 +774,10 @@ def stream_lines(ctx):
                 expected = ('ok', {'statements': stmts})
         model_lines = [t for _, t in resp['lines']][:seen]
         ctx.compare('lines', chunks, jsonable([impl_phys, impl_lines, out]), jsonable([resp['phys'], model_lines, expected]))
+        # oracle on the implementation alone: an error names the FIRST physical line of its logical line
+        bad = first_physical_line_check(chunks, out)
+        if bad:
+            ctx.witness('first-physical-line', {'chunks': chunks}, 'error.line starts with the text of physical line error.line_number', bad)
         if not resp['specAgrees']:
             ctx.compare('lines', {'chunks': chunks, 'what': 'Lean mirror logicalLinesL = spec'}, True, False)
 
@@ -944,11 +976,15 @@ def stream_charclass(ctx):
 
 
 def streams(ctx):
-    stream_charclass(ctx)
-    stream_lines(ctx)
-    stream_classify(ctx)
-    stream_errmsg(ctx)
-    stream_layout(ctx)
+    try:
+        stream_charclass(ctx)
+        stream_lines(ctx)
+        stream_classify(ctx)
+        stream_errmsg(ctx)
+        stream_layout(ctx)
+    finally:
+        # the smallest failing input becomes the replay file
+        ctx.witnesses.sort(key=lambda w: len(json.dumps(w, default=str)))
 
 
 # ---------------------------------------------------------------------------------------------------------------------
@@ -997,6 +1033,8 @@ def search(ctx):
 
 
 def replay(witness):
+    if not isinstance(witness, dict):
+        raise fw.Infra('the recorded witness was truncated and cannot be replayed; re-run the check')
     oracle = witness['oracle']
     inp = witness['input']
     parser = P()
@@ -1012,6 +1050,8 @@ def replay(witness):
             return caret_check(inp['line'], inp['column'], str(parser.BareScriptParserError('Syntax error', inp['line'], inp['column']))) is not None
         except Exception:  # pylint: disable=broad-except
             return True
+    if oracle == 'first-physical-line':
+        return first_physical_line_check(inp['chunks'], run_parse(inp['chunks'])) is not None
     if oracle == 'only-parser-errors':
         return run_parse(inp['original'])[0] == 'exc'
     if oracle == 'shipped-script-parses':
@@ -1028,4 +1068,7 @@ LEVEL_TEXT = ('Theorems for all texts: physical lines do not depend on LF vs CRL
 LEVEL_NOTE = ('Trusted: Lean kernel; extract.py; this harness. Modelled not verified: CPython re (recognisers re-implemented by hand), Unicode '
               'white-space / word tables (exhaustively compared each run). The lift of layout independence through expression TEXT '
               '(parse_expression skips blanks before every token) belongs to ExprParse: here it is a hypothesis of leading_ws_irrelevant and is '
-              'exercised on the implementation by the layout oracle (continuation at every inter-token gap).')
+              'exercised on the implementation by the layout oracle (continuation at every inter-token gap). Trailing blanks: proved per '
+              'recogniser for keyword-only statements, else, if/elif/while and return (trailing_ws_irrelevant_partial, keyword_line_layout); '
+              'for the other statement kinds correspondence-strength. Statelessness (parse_stateless of DESIGN) is immediate in Lean (functions) and '
+              'is a property of the Python side: checked by the stateless stream (re-parse in shuffled order after mutating earlier results).')
